@@ -760,13 +760,16 @@ theorem C05_nothing_left_today (srv : Server) (start : Nat) (ops : List Op) :
   C05_nothing_left srv factsToday (by rw [C05_fact_region]) start ops
 
 /-- the three server tables are keyed as the model keys them (`keyKind`): Streamable by `requestIDKey`, legacy SSE and
-    stdio by `uint64` through `parseRequestID`. -/
+    stdio by `uint64` through `parseRequestID`; the entry is inserted before the request frame is queued or written; the
+    functions that read each table are exactly the modelled lookup functions (a new function reading a table changes
+    `readSites`; whether every reader compares the posting session is part of `lookupUsesSession`, `C05_fact_region`). -/
 theorem C05_fact_keys :
     (Mcp.Gen.pdTables.filter (fun t => t.name = t!"streamable_server.pendingRequests" ∨ t.name = t!"sse_server.responses" ∨ t.name = t!"stdio_server.responses")).map
-      (fun t => (t.name, t.insertKind, t.lookupKinds)) =
-      [ (t!"sse_server.responses", t!"uint64OfInt64", [t!"parseRequestID", t!"parseRequestID"]),
-        (t!"stdio_server.responses", t!"uint64OfInt64", [t!"parseRequestID"]),
-        (t!"streamable_server.pendingRequests", t!"idKey", [t!"idKey"]) ] := by decide
+      (fun t => (t.name, t.insertKind, t.lookupKinds, t.insertBeforeSend, t.readSites)) =
+      [ (t!"sse_server.responses", t!"uint64OfInt64", [t!"parseRequestID", t!"parseRequestID"], true,
+          [t!"SSEServer.handleResponseMessage", t!"SSEServer.handleRootsListResponse"]),
+        (t!"stdio_server.responses", t!"uint64OfInt64", [t!"parseRequestID"], true, [t!"stdioServerInternal.HandleResponse"]),
+        (t!"streamable_server.pendingRequests", t!"idKey", [t!"idKey"], true, [t!"responseManager.DeliverResponse"]) ] := by decide
 
 /-! ## non-vacuity -/
 
